@@ -23,8 +23,22 @@ def run(chk):
                   'crashes / restarts / cuts / heals, and injections of duplicated, stale and forged-origin messages of every kind; '
                   'non-trivial = some instance marks a peer ISOLATED; distinct = distinct schedule seed',
                   quick_cases=60, thorough_cases=800, sched_kwargs={'mismatch': 0.5, 'inject': True, 'faults_max': 25})
+    cov1 = dict(chk.coverage)
+    # second stream: the same with programs in the Supervisors - process state and removal events (also duplicated / stale, from peers
+    # that are STOPPED, CHECKING, FAILED or ISOLATED in the receiver's view) must only count from CHECKED / RUNNING peers
+    st2 = cluster_check(chk, ['C13-'], lambda lines, obs, n: any(l.startswith('act') and l.split()[2] in ('pev', 'prm') for l in lines),
+                        'the same with 1-3 programs per Supervisor, process state events and removals, injections of stale process data',
+                        quick_cases=30, thorough_cases=500,
+                        sched_kwargs={'mismatch': 0.4, 'inject': True, 'faults_max': 20, 'procs': True, 'rpc_names': ('end_sync',)})
+    cov2 = dict(chk.coverage)
+    chk.coverage.update(cov1)
+    chk.coverage['evaluations'] = cov1.get('evaluations', 0) + cov2.get('evaluations', 0)
+    chk.coverage['distinct_nontrivial'] = cov1.get('distinct_nontrivial', 0) + cov2.get('distinct_nontrivial', 0)
+    chk.coverage['traces_validated_against_impl'] = chk.coverage['evaluations']
+    chk.coverage['process_stream'] = {'schedules': st2['evaluations'], 'global_steps': st2['steps'], 'action_kinds': st2['kinds'],
+                                      'rule': cov2.get('rule'), 'distinct_nontrivial': cov2.get('distinct_nontrivial')}
     chk.assumptions += ['messages already dequeued by a proxy thread at the instant of isolation are outside the model (thread race)',
-                        'PROCESS_ADDED is not in the statement\'s list of events restricted to admitted peers and is not judged']
+                        'PROCESS_ADDED is not in the statement\'s list of events restricted to admitted peers and is not judged; disability events are covered at the commander level (./check C04)']
 
 
 def replay(chk, path):
